@@ -303,7 +303,12 @@ func Gen(t *simrt.Tape, prof string) *Scenario {
 			m.Body = []byte("body of " + m.ID + "\r\n")
 		}
 		for a := 0; a < sc.MaxTries; a++ {
-			m.Plans = append(m.Plans, genPlan(t, "plan", m.Rcpts, sc.FaultNum))
+			pl := genPlan(t, "plan", m.Rcpts, sc.FaultNum)
+			if prof == "c16" {
+				// the whole range of error constructions (wrapping patterns)
+				pl.Var = t.Choose("plan", 56)
+			}
+			m.Plans = append(m.Plans, pl)
 		}
 		sc.Msgs = append(sc.Msgs, m)
 	}
